@@ -2140,6 +2140,7 @@ def _reg(path, impl):
 for _mod in ("numpy",):
     _reg(_mod + ".array", np_array)
     _reg(_mod + ".asarray", np_asarray)
+    _reg(_mod + ".asanyarray", np_asarray)   # differs from asarray only for ndarray subclasses, which the array model does not distinguish
     _reg(_mod + ".zeros", np_zeros_like_model(0))
     _reg(_mod + ".empty", np_zeros_like_model(None))
     _reg(_mod + ".empty_like", np_empty_like)
